@@ -205,6 +205,48 @@ def _judge_bytes(data, TLV, TlvParseException, label):
     return out
 
 
+def case_nested(params):
+    """params: depth, types, cut.  A value that is itself a complete TLV8 string whose value is one again, `depth` levels deep (HAP wraps
+    TLVs in TLVs: a Value item holding a TLV, holding a list of TLVs ...).  For the codec it is one item with opaque bytes: encoding and
+    decoding it behave as for any other bytes of that length - and a cut-off variant is a parse error, nothing else."""
+    import time
+
+    TLV, TlvParseException = _tlv()
+    types = params["types"]
+    inner = b"\x01\x02"
+    for d in range(params["depth"]):
+        inner = ref.encode([(types[d % len(types)], inner)])
+    items = [(types[0], inner)]
+    want = ref.encode(items)
+    out = []
+    det = {"depth": params["depth"], "types": types, "bytes": len(want)}
+    t0 = time.monotonic()
+    try:
+        got = bytes(TLV.encode_list([(t, bytearray(v)) for t, v in items]))
+        if got != want:
+            out.append(("nested:encode-bytes-differ", det))
+    except Exception as e:  # noqa: BLE001
+        out.append((f"nested:encode-raises:{type(e).__name__}", det))
+    for name, fn in (("decode_bytes", TLV.decode_bytes), ("decode_bytearray", lambda b: TLV.decode_bytearray(bytearray(b)))):
+        try:
+            dec = _norm(fn(want))
+            if dec != [(t, bytes(v)) for t, v in items]:
+                out.append((f"nested:{name}:roundtrip-differs", dict(det, got=[(t, len(v)) for t, v in dec])))
+        except Exception as e:  # noqa: BLE001
+            out.append((f"nested:{name}-raises:{type(e).__name__}", det))
+        cut = want[: len(want) - params.get("cut", 1)]
+        try:
+            fn(cut)
+            out.append((f"nested:{name}:cut-off-input-accepted", det)) if not ref.parse_raw(cut)[1] and ref.merge(_norm(fn(cut))) != ref.merge(ref.parse_raw(cut)[0]) else None
+        except TlvParseException:
+            pass
+        except Exception as e:  # noqa: BLE001
+            out.append((f"nested:{name}:foreign-exception-on-cut-off-input:{type(e).__name__}", det))
+    if time.monotonic() - t0 > 20.0 and not out:
+        out.append(("nested:work-grows-with-the-nesting-depth-of-an-opaque-value", dict(det, seconds=round(time.monotonic() - t0, 1))))
+    return out
+
+
 def case_bytes(params):
     TLV, TlvParseException = _tlv()
     return _judge_bytes(bytes(params["data"]), TLV, TlvParseException, "string")
@@ -414,6 +456,7 @@ CASES = {
     "bytes_filter": case_bytes_filter,
     "mutate": case_mutate,
     "blefrag": case_blefrag,
+    "nested": case_nested,
 }
 
 
@@ -548,6 +591,8 @@ def run(ctx):
                     bl.append({"spec": m2, "cuts": cuts, "via": "all"})
         bl.append({"spec": m2, "cuts": sorted({max(1, (n * i) // parts) for i in range(1, parts)})[: parts - 2], "empty_last": True}) if parts > 2 else None
     work += _chunks("blefrag", bl, 300)
+    nest = [{"depth": d, "types": ty, "cut": c, "spec": [[ty[0], d]]} for d in ([1, 2, 3, 8, 12, 16, 300, 1000] if quick else [1, 2, 3, 5, 8, 12, 16, 18, 100, 250, 300, 600, 1000, 3000]) for ty in ([1], [1, 9], [6, 3]) for c in (1, 3)]
+    work += _chunks("nested", nest, 4)
 
     ctx.pmap(_work, work)
     ctx.exhaustive = True
